@@ -283,9 +283,10 @@ CHECKS = {
         text="Theorems (Props/C15.v, reals, all series and gap patterns): the kernel's single-pass expression equals the Pearson "
              "correlation of the two mean-filled vectors (a missing cell sits on the mean of the valid cells of its vector, and filling "
              "keeps that mean); no valid pair gives 0; the value lies in [-1, 1] (Cauchy-Schwarz, proved for finite sums); it is "
-             "invariant under every positive affine map of the valid cells. The binary64 models of the integer (exact int64 sums) and "
+             "invariant under every affine map of the valid cells with a non-zero scale, negative ones included (C15_affine_invariant, "
+             "C15_reflection_invariant). The binary64 models of the integer (exact int64 sums) and "
              "float kernels with the float32 store are compared bit-for-bit with the compiled autocorr_1d / autocorr / autocorr_tyx; an "
-             "independent exact-rational definition, the range, affine pairs, the int/nodata vs float/NaN encodings and both layouts through "
+             "independent exact-rational definition, the range, affine pairs of both signs, the int/nodata vs float/NaN encodings and both layouts through "
              "the accessor are checked on the implementation.",
         ref="7 (C15)",
         note="Trusted: Coq kernel + vm_compute; harness; libm pow(v, -0.5) recorded per variance; the variance threshold 1e-8 is modelled "
